@@ -4,6 +4,8 @@ import os
 
 from common import Check, log, tool_error
 from l1 import apply_l1
+from common import ensure_oracle, run_harness
+from l3 import l3_run
 from mc import replay, run_mc, spec_violation
 
 TIERS = ("quick", "thorough")
@@ -102,6 +104,7 @@ def C04(chk):
     profiles_mc(chk, "case-nfc", ["A", "e", "acute", "Eac", "angst", "Sig", "dotI", "cedil", "ypo"], n, profs, ops, insts)
     profiles_mc(chk, "nfc-bidi", ["heb", "hpt", "a", "d1", "aid", "eaid", "arab", "fatha", "dot"], n, profs, ops, insts)
     profiles_mc(chk, "context-case", ["l", "mdot", "A", "grk", "GRK", "keraia", "ZWJ", "vir", "deva"], n, profs, ops, insts)
+    l3_run(chk, "usernames", strings=500 if q else 6000, per_string=4, kinds=["enforce", "enforce", "prepare"], profiles=profs)
     chk.cov["exhaustive"] = True
     chk.cov["rule"] = ("every string of length <= %d over four 9-role alphabets (width x validation x case, case x NFC, NFC x bidi, "
                        "context x case), canonical instance plus %d seeded random instances of the same roles; both username profiles, "
@@ -118,6 +121,7 @@ def C05(chk):
     profiles_mc(chk, "opq-spaces", ["a", "A", "SP", "NBSP", "OGH", "ISP", "EQD", "EMSP", "TAB"], n, ["OPQ"], ops, insts)
     profiles_mc(chk, "opq-compat", ["a", "FWA", "rom4", "e", "acute", "angst", "emo", "NBSP", "diaer"], n, ["OPQ"], ops, insts)
     apply_l1(chk, ["osp"], nontrivial_key="zs")
+    l3_run(chk, "opaque", strings=500 if q else 6000, per_string=3, kinds=["enforce", "enforce", "prepare", "additional_mapping_rule"], profiles=["OPQ"])
     chk.cov["exhaustive"] = True
     chk.cov["rule"] = ("every string of length <= %d over two 9-role alphabets (all kinds of spaces incl. controls; compatibility, "
                        "case, decomposed and 4-byte characters), canonical + %d random instances; OpaqueString prepare / enforce / "
@@ -132,6 +136,7 @@ def C06(chk):
     ops = ["prepare", "enforce"]
     profiles_mc(chk, "nick-spaces", ["a", "A", "SP", "NBSP", "ISP", "diaer", "EMSP", "OGH"], n + 1, ["NICK"], ops, insts)
     profiles_mc(chk, "nick-compat", ["a", "rom4", "hcj", "eac", "han", "emo", "FWA", "SP", "diaer"], n, ["NICK"], ops, insts)
+    l3_run(chk, "nickname", strings=500 if q else 6000, per_string=3, kinds=["enforce", "enforce", "prepare"], profiles=["NICK"], max_len=10)
     chk.cov["exhaustive"] = True
     chk.cov["rule"] = ("every string of length <= %d over a space alphabet (incl. U+00A8 whose NFKC introduces a leading space, so that "
                        "a second and third application are needed) and <= %d over a compatibility alphabet (incl. Hangul compatibility "
@@ -147,6 +152,7 @@ def C10(chk):
                 ["case_mapping_rule"], insts, invariants=["Agree", "MappingsAgree", "MappingsIdempotent"])
     profiles_mc(chk, "case-enforce", ["a", "A", "ypo", "dotI", "DSR", "Sig", "GRK", "Eac"], n - 1, ["UCM"], ["enforce"], insts)
     apply_l1(chk, ["lc"], nontrivial_key="lower")
+    l3_run(chk, "case", strings=400 if q else 5000, per_string=3, kinds=["case_mapping_rule", "case_mapping_rule", "enforce"], profiles=["UCM", "NICK"])
     chk.cov["exhaustive"] = True
     chk.cov["rule"] = ("every string of length <= %d over {lowercase, uppercase, titlecase (U+1F88, U+01C5), U+0130 (one-to-many), "
                        "4-byte cased, sigma, uncased} through case_mapping_rule of both profiles that define it, and <= %d through "
@@ -162,6 +168,7 @@ def C11(chk):
                 ["width_mapping_rule"], insts, invariants=["Agree", "MappingsAgree", "MappingsIdempotent"])
     profiles_mc(chk, "width-prepare", ["a", "FWA", "HWK", "ISP", "rom4", "eac", "FWBANG"], n - 1, ["UCM", "UCP"], ["prepare"], insts)
     apply_l1(chk, ["wm"], nontrivial_key="wm")
+    l3_run(chk, "width", strings=400 if q else 5000, per_string=3, kinds=["width_mapping_rule", "width_mapping_rule", "prepare"], profiles=["UCM", "UCP"])
     chk.cov["exhaustive"] = True
     chk.cov["rule"] = ("every string of length <= %d over {ASCII, fullwidth upper/lower, halfwidth katakana, ideographic space, other "
                        "compatibility (roman numeral), 2- and 4-byte unmapped} through width_mapping_rule, <= %d through prepare; "
@@ -177,6 +184,7 @@ def C12(chk):
                 ["additional_mapping_rule"], insts, invariants=["Agree", "MappingsAgree", "MappingsIdempotent", "OnlySpacesChange"])
     profiles_mc(chk, "spaces-enforce", ["SP", "NBSP", "ISP", "a", "eac", "emo"], n - 1, ["NICK", "OPQ"], ["enforce"], insts)
     apply_l1(chk, ["osp", "nsp"], nontrivial_key="zs")
+    l3_run(chk, "spaces", strings=400 if q else 5000, per_string=3, kinds=["additional_mapping_rule", "additional_mapping_rule", "enforce"], profiles=["NICK", "OPQ"], max_len=10)
     chk.cov["exhaustive"] = True
     chk.cov["rule"] = ("every string of length <= %d over {SP, NBSP (2-byte Zs), OGHAM (3-byte Zs), 1/2/3/4-byte non-spaces} through both "
                        "additional mapping rules, <= %d through enforce; TLC checks two-phase scan (byte offsets, begin/prev_space "
@@ -227,6 +235,7 @@ def C03(chk):
     generic_mc(chk, "MC_Context", "neighbours", ["keraia", "grk", "GRK", "geresh", "heb", "hpt", "a", "l", "mdot"],
                {"MaxLen": n - 1 if q else n, "Rules": tla_set(["keraia", "hebrew", "middle_dot", "zwj"])}, CTX_INVS, insts)
     apply_l1(chk, ["reg", "vir", "greek", "hebrew", "kana", "ld", "rd"], nontrivial_key="ctx")
+    l3_run(chk, "context", strings=500 if q else 6000, per_string=4, kinds=["ctx", "ctx", "ctx", "allows"])
     chk.cov["exhaustive"] = True
     chk.cov["rule"] = ("every label of length <= %d over three generated alphabets (joiners with L/D/R/T/U joining types and a virama; "
                        "whole-label rules; Before/After rules), canonical + %d random instances; every public rule function at every "
@@ -254,6 +263,7 @@ def C02(chk):
     generic_mc(chk, "MC_Context", "contextual", ["ZWNJ", "ZWJ", "vir", "arab", "mdot", "l", "aid", "eaid", "TAB"],
                {"MaxLen": n, "Rules": "{}"}, CTX_INVS, insts)
     apply_l1(chk, ["reg"], nontrivial_key="ctx")
+    l3_run(chk, "allows", strings=600 if q else 8000, per_string=2, kinds=["allows"])
     chk.cov["exhaustive"] = True
     chk.cov["rule"] = ("user-supplied classes: every assignment of the 7 property values to %d free multi-byte symbols x every label of "
                        "length <= 4 over them and the fixed symbols ZWJ/virama/middle dot/l, through a harness-defined class using the "
@@ -280,6 +290,7 @@ def C07(chk):
                    harness_args=["--forms"], timeout=3000)
         generic_mc(chk, "MC_Compare", "normalization3", ["e", "acute", "Eac", "angst", "rom4", "dotI"], {"MaxLen": 3, "Profs": profs}, invs, (0, 1),
                    harness_args=["--forms"], timeout=3000)
+    l3_run(chk, "families", driver="families", strings=60 if q else 700, profiles=["UCM", "UCP", "OPQ", "NICK"])
     chk.cov["exhaustive"] = True
     chk.cov["rule"] = ("every ordered pair of strings of length <= 2 (thorough: <= 3) over alphabets mixing case/width/spacing variants, "
                        "canonically and compatibly equivalent spellings, RTL and invalid characters, all four profiles; TLC checks the "
@@ -314,6 +325,7 @@ def C09(chk):
         replay(chk, mc, "MC_Bidi %s len<=%d draws=%d" % (name, n, draws), harness_args=["--draws", str(draws)], classify=classify_std,
                need_oracle=True)
     apply_l1(chk, ["bidi"], nontrivial_key="bidi_nonL")
+    l3_run(chk, "directionality", strings=500 if q else 6000, per_string=3, kinds=["directionality_rule", "directionality_rule", "enforce"], profiles=["UCM", "UCP"])
     chk.cov["rule"] = ("product of the RFC 5893 monitor and the scans over all 23 classes: labels of EVERY length (finite model, exhaustive); "
                        "bounded: every class sequence of length <= 3 over 23 classes and <= %d over 9 representative classes, each instantiated "
                        "with code points assigned in 16.0.0 (first member and seeded random members of the class) and sent through "
@@ -322,4 +334,91 @@ def C09(chk):
     chk.assumptions += ["L and the classes outside the rule's vocabulary (B, S, WS, explicit formatting) are not distinguishable through the rule"]
 
 
-PROPS = {"C02": C02, "C03": C03, "C07": C07, "C09": C09, "C04": C04, "C05": C05, "C06": C06, "C10": C10, "C11": C11, "C12": C12, "C13": C13, "C14": C14, "C18": C18}
+def C08(chk):
+    q = chk.tier == "quick"
+    n = 3 if q else 4
+    insts = (0, 1) if q else (0, 1, 2, 3)
+    allp = ["UCM", "UCP", "OPQ", "NICK"]
+    invs = ["Agree", "OutputClean", "NoDrift", "FixedPoint"]
+    profiles_mc(chk, "closure-cased", ["A", "Eac", "dotI", "ypo", "angst", "e", "acute", "GRK", "Sig"], n, allp, ["enforce"], insts, invariants=invs)
+    profiles_mc(chk, "closure-compat", ["rom4", "hcj", "diaer", "FWA", "ISP", "NBSP", "a", "acute", "SP"], n, allp, ["enforce"], insts, invariants=invs)
+    # the invariant really depends on the closure assumptions: with a character whose lowercase image is
+    # UNASSIGNED in the universe (role cher) TLC must find OutputClean violated
+    import shutil
+    import universe
+    upath, chosen, u = universe.generate(["a", "cher"], 0, chk.seed, tag="c08-cher")
+    cfg = ('SPECIFICATION Spec\nCONSTANTS\n  MaxLen = 2\n  Profs = {"UCM"}\n  Ops = {"enforce"}\n  FirstSyms = {}\n'
+           "INVARIANT OutputClean\nVIEW View\nCHECK_DEADLOCK FALSE\n")
+    mc = run_mc("MC_Profiles", cfg, "c08-cher", workers=2, extra_files=[upath], expect_violation="OutputClean")
+    shutil.rmtree(os.path.dirname(upath), ignore_errors=True)
+    if os.path.exists(mc.replay_path):
+        os.remove(mc.replay_path)
+    if mc.res.violated != "OutputClean":
+        tool_error("vacuity guard: OutputClean is not violated by a universe that breaks the lowercase closure assumption")
+    chk.add_tlc("MC:closure assumption is necessary (role cher: OutputClean violated, as it must be)", mc.res)
+    # exhaustive singles (+ pairs in the thorough tier) through the real enforce
+    out, t = run_harness(["c08sweep", "--oracle", ensure_oracle(), "--seed", str(chk.seed)] + ([] if q else ["--pairs"]))
+    summary = None
+    n_kf = 0
+    for line in out.splitlines():
+        d = json.loads(line)
+        if "summary" in d:
+            summary = d["summary"]
+        elif "problem" in d:
+            m = dict(d["problem"], k="c08")
+            fid = classify_std(m)
+            if fid:
+                chk.known_finding(fid)
+                n_kf += 1
+            else:
+                chk.violation("enforce output violates C08: %s" % json.dumps(m, sort_keys=True)[:500], {"layer": "sweep", "case": m})
+    if summary is None:
+        tool_error("c08sweep gave no summary")
+    if summary["problems"] > 3000:
+        chk.violation("c08sweep: more than 3000 problems", {"layer": "sweep", "summary": summary})
+    chk.add_part("sweep", dict(summary, known=n_kf, wall_s=round(t, 1)))
+    chk.cov["evaluations"] += summary["enforce_calls"]
+    chk.cov["distinct_nontrivial"] += summary["changed"]
+    chk.sample({"layer": "sweep", "summary": summary})
+    info = l3_run(chk, "enforce-all", strings=600 if q else 8000, per_string=3, kinds=["enforce"], profiles=allp)
+    chk.cov["rule"] = ("model: OutputClean and NoDrift on every enforce behaviour over alphabets of cased / decomposable / compatibility "
+                       "characters (strings <= %d, 4 profiles), plus a configuration showing the invariant depends on the closure "
+                       "assumption; real code: every scalar value alone%s through enforce of all four profiles, each successful result "
+                       "re-classified with the profile's class and enforced again; random real strings (L3) likewise; non-trivial = "
+                       "accepted inputs that enforce changed" % (n, "" if q else " and ~76k pairs (all canonical composition pairs, valid cased x marks, compat x space/mark)"))
+
+
+def C01(chk):
+    q = chk.tier == "quick"
+    n = 3 if q else 4
+    allp = ["UCM", "UCP", "OPQ", "NICK"]
+    ops = ["prepare", "enforce", "width_mapping_rule", "additional_mapping_rule", "case_mapping_rule", "normalization_rule", "directionality_rule"]
+    profiles_mc(chk, "bytes", ["a", "eac", "han", "emo", "SP", "NBSP", "OGH", "A"], n, allp, ops, (0, 1), invariants=["Agree", "MappingsAgree", "AllowsAgree"])
+    out, t = run_harness(["c01sweep", "--oracle", ensure_oracle(), "--seed", str(chk.seed), "--max-len", "4" if q else "6",
+                          "--random", "20000" if q else "300000"])
+    summary = None
+    for line in out.splitlines():
+        d = json.loads(line)
+        if "summary" in d:
+            summary = d["summary"]
+        elif "panic" in d:
+            chk.violation("panic in a public operation: %s" % json.dumps(d["panic"], sort_keys=True)[:500], {"layer": "sweep", "case": d["panic"]})
+    if summary is None:
+        tool_error("c01sweep gave no summary")
+    chk.add_part("sweep", dict(summary, wall_s=round(t, 1)))
+    chk.cov["evaluations"] += summary["calls"]
+    chk.cov["distinct_nontrivial"] += summary["strings"]
+    chk.sample({"layer": "sweep", "summary": summary})
+    r = apply_l1(chk, [], full32=not q)
+    for pe in r["panics"][:5]:
+        chk.violation("panic while classifying / probing code points U+%04X..U+%04X" % (pe.get("lo", 0), pe.get("hi", 0)), {"layer": "L1", "event": pe})
+    l3_run(chk, "all-ops", strings=700 if q else 8000, per_string=5, max_len=12)
+    chk.cov["rule"] = ("every string of length <= %s over an 11-symbol alphabet (1/2/3/4-byte characters, ASCII / 2-byte / 3-byte spaces, cased, "
+                       "width-mapped, combining mark, ZWJ) and %s random UTF-8 strings (length <= 64, all planes) through EVERY public operation "
+                       "(7 rule/profile operations + 2 compares x 4 profiles, allows of both classes, 8 context rules at every position "
+                       "0..len+2 and at usize::MAX, usize::MAX-1, 2^63, 2^32+1), all under catch_unwind; classification of every scalar value "
+                       "(thorough: all 2^32 values); the specification has no panic result, so a panic is also an unexplained event in every "
+                       "replay and trace; model: slices on character boundaries (MappingsAgree) for strings <= %d" % ("4" if q else "6", "20k" if q else "300k", n))
+
+
+PROPS = {"C01": C01, "C08": C08, "C02": C02, "C03": C03, "C07": C07, "C09": C09, "C04": C04, "C05": C05, "C06": C06, "C10": C10, "C11": C11, "C12": C12, "C13": C13, "C14": C14, "C18": C18}
